@@ -195,6 +195,9 @@ pub struct PlanB {
     /// size of erbium's host's ephemeral port range (0: default)
     #[serde(default)]
     pub eph_ports: u16,
+    /// probability that a UDP sendmsg of erbium fails with ENOBUFS/EPERM/ENETUNREACH
+    #[serde(default)]
+    pub send_err_p: f64,
     pub sndbuf: usize,
     pub max_seg: usize,
     pub lat_max_us: u64,
@@ -493,6 +496,7 @@ pub fn generate(seed: u64, g: &GenB) -> PlanB {
         out_delay_p: if faulty && r.chance(0.3) { 0.2 } else { 0.0 },
         qid_bits: if idreuse { 3 } else if faulty && r.chance(0.3) { *r.pick(&[6u32, 3]) } else { 16 },
         eph_ports: 0,
+        send_err_p: 0.0,
         sndbuf: *r.pick(&[4096usize, 16384, 65536, 1 << 20, 1 << 20]),
         max_seg: *r.pick(&[0usize, 0, 0, 1460, 536]),
         lat_max_us: *r.pick(&[100u64, 2000, 20000]),
@@ -747,6 +751,9 @@ pub fn generate(seed: u64, g: &GenB) -> PlanB {
         let mut k = Rng::new(seed, "plan-b-knobs2");
         if faulty && k.chance(0.35) {
             p.eph_ports = *k.pick(&[4u16, 16, 64, 512]);
+        }
+        if faulty && k.chance(0.3) {
+            p.send_err_p = *k.pick(&[0.02, 0.1, 0.3]);
         }
     }
     if shape == "hostile" {
